@@ -49,3 +49,29 @@ func TestTRefs(t *testing.T) {
 		t.Fail()
 	}
 }
+
+func TestTTail(t *testing.T) {
+	worstE, worstQ := 0.0, 0.0
+	var atE, atQ [2]float64
+	for _, nu := range []float64{2, 7, 40, 41, 42, 100, 333.3, 1000, 1001, 2998.6, 3000, 6000, 11998, 19999} {
+		for _, x := range []float64{1, 1.5, 2.5, 4, 5.5, 7, 9, 12, 20, 38} {
+			a, q := TTail(nu, x), TTailQuad(nu, x)
+			if a < 1e-300 {
+				continue
+			}
+			if d := math.Abs(a/q - 1); d > worstQ {
+				worstQ, atQ = d, [2]float64{nu, x}
+			}
+			if nu == math.Floor(nu) && int(nu)%2 == 0 && a > 1e-90 {
+				e := TTailEven(int(nu), x)
+				if d := math.Abs(a/e - 1); d > worstE {
+					worstE, atE = d, [2]float64{nu, x}
+				}
+			}
+		}
+	}
+	t.Logf("tail: beta vs exact even closed form %.3g (relative) at %v; beta vs quadrature %.3g at %v", worstE, atE, worstQ, atQ)
+	if worstE > 1e-10 || worstQ > 1e-10 {
+		t.Fail()
+	}
+}
